@@ -232,7 +232,9 @@ Proof. vm_compute. reflexivity. Qed.
    Proved on spec/NoteSem.v by induction over the fuel of `sem` (every nested block runs with the fuel below), then carried
    to exec() on the tokens by C03_exec.
    An octave change is NOT such a law in general (n-notes and notes with an explicit octave do not follow it, o is
-   absolute, > < and the octave-once marks stop at 0 and 10, a new track starts at o5): see C03_octave_not_a_shift. *)
+   absolute, > < and the octave-once marks stop at 0 and 10, a new track starts at o5): see C03_octave_not_a_shift.
+   It is one for the programs that use the octave only through the track's current octave (keeps3_prog _ _ false p: no
+   o > < octave-once marks, no octave written on a note, no n-note) and octaves inside 0..10: C03_transpose_octave. *)
 From Sakura.Proofs Require Import TransposeP.
 
 Theorem C03_transp_exact : forall (d : Z) (n n' : note),
@@ -344,6 +346,33 @@ Example C03_octave_not_a_shift :
   keys [COct 10; ex0] = [[120]] /\ keys [COct 10; COctUp; ex0] = [[120]].
 Proof. repeat split; vm_compute; reflexivity. Qed.
 
+(* the octave: o(a + j) instead of o(a) moves the notes played from there on, on the track it is given on, by 12 j;
+   other tracks (also those created later) are not touched.  only_track c d i = if i = c then d else 0 *)
+Theorem C03_transpose_octave : forall (pre p : list cmd) (a j : Z),
+  0 <= a <= 10 -> 0 <= a + j <= 10 -> keeps3_prog true true false p = true ->
+  moved_after (denote_prog pre) (only_track (p_cur (denote_prog pre)) (12 * j))
+              (denote_prog (pre ++ COct a :: p)) (denote_prog (pre ++ COct (a + j) :: p)).
+Proof. exact octave_law. Qed.
+
+Theorem C03_transpose_octave_exec : forall (pre p : list cmd) (a j : Z),
+  wf_prog pre = true -> wf_prog p = true -> 0 <= a <= 10 -> 0 <= a + j <= 10 -> keeps3_prog true true false p = true ->
+  let X := pre ++ COct a :: p in
+  let X' := pre ++ COct (a + j) :: p in
+  exists s s',
+    exec_f (S (prog_depth X)) (fuel_of X) (top_tokens X) (Ok song_new) = Ok s /\ R s (denote_prog X) /\
+    exec_f (S (prog_depth X')) (fuel_of X') (top_tokens X') (Ok song_new) = Ok s' /\ R s' (denote_prog X') /\
+    moved_after (denote_prog pre) (only_track (p_cur (denote_prog pre)) (12 * j)) (denote_prog X) (denote_prog X').
+Proof. exact octave_exec_at. Qed.
+
+(* non-vacuity: "c o4 [2 c 'eg' ] {c d e}4 TR(2) c" against the same with o6: the first track from the o on + 24,
+   the note before it and the other track the same *)
+Example C03_transpose_octave_example :
+  let p := [CLoop (Some 2) [ex0; CChord [ex_n 4; ex_n 7] None None None] None; CTuplet [ex0; ex_n 2; ex_n 4] None; CTrack 2; ex0] in
+  keeps3_prog true true false p = true /\ wf_prog p = true /\
+  ex_keys (exec_f 4 60 (top_tokens ([ex0] ++ COct 4 :: p)) (Ok song_new)) = [[60; 48; 55; 52; 48; 55; 52; 48; 50; 52]; []; [60]] /\
+  ex_keys (exec_f 4 60 (top_tokens ([ex0] ++ COct 6 :: p)) (Ok song_new)) = [[60; 72; 79; 76; 72; 79; 76; 72; 74; 76]; []; [60]].
+Proof. repeat split; vm_compute; reflexivity. Qed.
+
 Print Assumptions C03_tuplet_count.
 Print Assumptions C03_exec.
 Print Assumptions C03_exec_tokens.
@@ -361,3 +390,5 @@ Print Assumptions C03_transpose_track_key.
 Print Assumptions C03_transpose_at_exec.
 Print Assumptions C03_transpose_track_key_exec.
 Print Assumptions C03_sem_fuel.
+Print Assumptions C03_transpose_octave.
+Print Assumptions C03_transpose_octave_exec.
